@@ -110,6 +110,13 @@ func c17arg(r *h.Rand, in orb.LineString) orb.LineString {
 	if in != nil && len(in) <= len(c17buf) && r.Bool() {
 		copy(c17buf, in)
 		c17argFresh = false
+		if r.Bool() {
+			// spare capacity behind the line, holding unrelated points (a window into a larger buffer)
+			for i := len(in); i < len(c17buf); i++ {
+				c17buf[i] = orb.Point{-777 - float64(i), 555 + float64(i)}
+			}
+			return c17buf[:len(in)]
+		}
 		return c17buf[:len(in):len(in)]
 	}
 	c17argFresh = true
@@ -153,8 +160,12 @@ func init() {
 			if i > 0 && r.P(1, 5) {
 				p = ls[i-1] // zero-length segment
 			}
-			if i > 0 && integer && r.P(1, 4) { // axis-parallel integer step: integer segment lengths
-				p = orb.Point{ls[i-1][0] + float64(r.Range(0, 12)), ls[i-1][1]}
+			if i > 0 && integer && r.P(1, 4) { // axis-parallel integer step, forwards or back over itself: integer segment lengths
+				p = orb.Point{ls[i-1][0] + float64(r.Range(-6, 12)), ls[i-1][1]}
+			}
+			if i > 1 && r.P(1, 10) { // exactly collinear with the previous segment, beyond it, on it, or back past its start
+				t := []float64{2, 0.5, -1, 1.5, -0.5}[r.Intn(5)]
+				p = orb.Point{ls[i-2][0] + t*(ls[i-1][0]-ls[i-2][0]), ls[i-2][1] + t*(ls[i-1][1]-ls[i-2][1])}
 			}
 			ls = append(ls, p)
 		}
